@@ -372,6 +372,13 @@ impl OutstationSession {
         writer: &mut TransportWriter,
         database: &mut DatabaseHandle,
     ) -> RunError {
+        // The future returned by this method may be dropped instead of being polled to
+        // completion: the TCP server does this when a new connection replaces the current one.
+        // The clean-up at the end of that session never ran, so it is performed here as well.
+        // This does nothing if the previous session ended by returning an error.
+        self.state.reset();
+        database.reset();
+
         loop {
             if let Err(err) = self.run_idle_state(io, reader, writer, database).await {
                 self.state.reset();
